@@ -544,7 +544,7 @@ fn key_idx(lw: usize, rw: usize, l: usize, i: usize, q: bool) -> Option<usize> {
 }
 /// a conjunct `column = column`: Some(pairs one outer with one inner column, each resolved on its own side)
 fn key_ok(lw: usize, rw: usize, a: (usize, usize, bool), b: (usize, usize, bool)) -> bool {
-    let side_ok = |c: (usize, usize, bool)| key_idx(lw, rw, c.0, c.1, c.2) == Some(if c.0 == 0 { lw + c.1 } else { c.1 }) && c.0 <= 1;
+    let side_ok = |c: (usize, usize, bool)| key_idx(lw, rw, c.0, c.1, c.2) == Some(if c.0 == 0 { lw + c.1 } else { c.1 }) && c.0 <= 1 && (c.0 == 0 || c.1 < lw);
     match (key_idx(lw, rw, a.0, a.1, a.2), key_idx(lw, rw, b.0, b.1, b.2)) {
         (Some(x), Some(y)) => ((x < lw) != (y < lw)) && side_ok(a) && side_ok(b),
         _ => false,
